@@ -54,8 +54,9 @@ PROPS = {
         "level_note": "Theorems about Unsync.lean and Sync.lean; tie = differential runs (every lookup result compared) + map-site audit. The oracle also judges every implementation trace directly. Traces are judged up to the first internal panic (C08).",
     },
     "C05": {
-        "lean_modules": ["MiniMoka.Props.C05", "MiniMoka.Props.ConcSLookup", "MiniMoka.Props.ConcFLookup"],
-        "theorems": ["MiniMoka.Props.ConcF_C05",
+        "lean_modules": ["MiniMoka.Props.C05", "MiniMoka.Props.ConcSLookup", "MiniMoka.Props.ConcFLookup", "MiniMoka.Props.ConcG"],
+        "theorems": ["MiniMoka.Props.ConcG_get_fresh", "MiniMoka.Props.ConcG_counterexample_split",
+                     "MiniMoka.Props.ConcF_C05",
                      "MiniMoka.Props.ConcS_C05",
                      "MiniMoka.Props.C05_unsync", "MiniMoka.Props.C05_sync"],
         "components": [("unsync", ["boundary", "mixed", "churn", "synced"], 40, 50),
@@ -66,7 +67,7 @@ PROPS = {
         "audit_kinds": ["time_check", "time_write"],
         "corpus": ["C05"],
         "assumptions": COMMON_ASSUME + ["clock readings stay far below the Instant range (checked_add cannot fail)"],
-        "level_text": "Proved for both caches, every ttl (incl. 0, with or without tti), every clock-advance pattern, history and (sync) placement of sync() with any queue state: C05_unsync, C05_sync. For every interleaving of the many-thread model ConcS.lean (operations ordered by their map steps; reads held by a thread across clock steps, updates and invalidations and enqueued late) the oracle accepts the linearised trace (ConcS_C05; ConcF_C05 for the finest model, where other threads step between the individual map accesses of maintenance). Real OS threads: stress only.",
+        "level_text": "Proved for both caches, every ttl (incl. 0, with or without tti), every clock-advance pattern, history and (sync) placement of sync() with any queue state: C05_unsync, C05_sync. For every interleaving of the many-thread model ConcS.lean (operations ordered by their map steps; reads held by a thread across clock steps, updates and invalidations and enqueued late) the oracle accepts the linearised trace (ConcS_C05; ConcF_C05 for the finest model, where other threads step between the individual map accesses of maintenance). Real OS threads: stress only. The lookup's guard scope as a model of its own (ConcG.lean): ConcG_get_fresh (no value is returned at or past write time + ttl when fetch and test are atomic w.r.t. updates), ConcG_counterexample_split (guard released between fetch and test: the seeded change C05f).",
         "level_note": "Theorems about Unsync.lean (timestamps live in the write-order nodes, as in the code) and Sync.lean (timestamps in the shared EntryInfo); tie = differential runs with boundary-landing clock steps + time-site audit.",
     },
     "C06": {
@@ -285,8 +286,9 @@ PROPS = {
         "level_note": "Theorems about Sync.lean / Unsync.lean; tie = differential runs + metamorphic runs on the implementation. The unsync contains_key clause is proved only in the partial form named above because the code violates the full one (D9, recorded not repaired).",
     },
     "C02": {
-        "lean_modules": ["MiniMoka.Props.C02", "MiniMoka.Props.C02Refines", "MiniMoka.Props.C02ConcS", "MiniMoka.Props.ConcF", "MiniMoka.Props.C02ConcF", "MiniMoka.Props.ConcV"],
-        "theorems": ["MiniMoka.Props.ConcV_invalidation_permanent", "MiniMoka.Props.ConcV_counterexample_D12",
+        "lean_modules": ["MiniMoka.Props.C02", "MiniMoka.Props.C02Refines", "MiniMoka.Props.C02ConcS", "MiniMoka.Props.ConcF", "MiniMoka.Props.C02ConcF", "MiniMoka.Props.ConcV", "MiniMoka.Props.ConcG"],
+        "theorems": ["MiniMoka.Props.ConcG_get_fresh", "MiniMoka.Props.ConcG_get_fresh_guarded", "MiniMoka.Props.ConcG_counterexample_split", "MiniMoka.Props.ConcG_split_uninterrupted",
+                     "MiniMoka.Props.ConcV_invalidation_permanent", "MiniMoka.Props.ConcV_counterexample_D12",
                      "MiniMoka.Props.ConcF_refines_R", "MiniMoka.Props.C02_for_ConcF_read_from", "MiniMoka.Props.C02_for_ConcF_not_superseded", "MiniMoka.Props.C02_for_ConcF_final",
                      "MiniMoka.Props.ConcF_maintenance_only_deletes",
                      "MiniMoka.Props.ConcS_refines_R", "MiniMoka.Props.C02_for_ConcS_read_from", "MiniMoka.Props.C02_for_ConcS_not_superseded", "MiniMoka.Props.C02_for_ConcS_final",
@@ -300,7 +302,7 @@ PROPS = {
         "audit_kinds": ["map_write", "map_read", "channel"],
         "corpus": ["C02", "D12"],
         "assumptions": COMMON_ASSUME + ["DashMap entry/get/remove/remove_if are atomic per key and the memory ordering of the atomics is as intended (trusted)", "real OS schedules are sampled by uncontrolled stress, not enumerated: exhaustive schedule exploration is a different technique"],
-        "level_text": "Proved for the abstract model R of per-key atomic map steps (every public call = invoke, one atomic map step, response; maintenance may delete any key at any time), for ALL interleavings, any number of threads and operations: a get returning v read an insert(k,v) with no write of k in between, hence never a value superseded by an operation that completed before the get began (C02_read_from, C02_not_superseded); values of one writer never go backwards for a reader (C02_monotone); at the end each key holds nothing or the last value written (C02_final). The step from R to OS threads, DashMap and crossbeam is not proved: 2-4 real threads x 1-6 ops on 1-3 keys are recorded with invoke/response stamps and each history is judged by an acceptor proved sound and complete for R (acceptR_sound, acceptR_complete). That the detailed model's operations are R fragments is proved: every insert / invalidate / get of Sync.lean is `invoke, one map step on its key, deletions by maintenance (daemon events), respond` and every other operation changes the map by deletions only or not at all (Sync_step_refines_R); every single-thread history of Sync.lean is an execution R accepts, with the same responses (Sync_history_refines_R, Sync_history_WF), so the C02 theorems apply to it. The same for the many-thread model ConcS.lean (any number of threads, calls split into map step / maintenance run / enqueue, freely interleaved): every execution projects to an execution R accepts with the same responses (ConcS_refines_R), hence in every such interleaving a get that returns v read an insert(k, v) with no write of k between the two map steps, is never superseded by an operation that completed before it began, and the final map holds the last write (C02_for_ConcS_read_from / _not_superseded / _final); likewise for the finest model ConcF.lean, in which every map access of a maintenance run is its own step (ConcF_refines_R, C02_for_ConcF_*). Racing invalidate_all calls (two steps each: clock reading, store) are modelled in ConcV.lean: ConcV_invalidation_permanent for the repaired store, ConcV_counterexample_D12 for the old one (defect D12, found in this work and repaired).",
+        "level_text": "Proved for the abstract model R of per-key atomic map steps (every public call = invoke, one atomic map step, response; maintenance may delete any key at any time), for ALL interleavings, any number of threads and operations: a get returning v read an insert(k,v) with no write of k in between, hence never a value superseded by an operation that completed before the get began (C02_read_from, C02_not_superseded); values of one writer never go backwards for a reader (C02_monotone); at the end each key holds nothing or the last value written (C02_final). The step from R to OS threads, DashMap and crossbeam is not proved: 2-4 real threads x 1-6 ops on 1-3 keys are recorded with invoke/response stamps and each history is judged by an acceptor proved sound and complete for R (acceptR_sound, acceptR_complete). That the detailed model's operations are R fragments is proved: every insert / invalidate / get of Sync.lean is `invoke, one map step on its key, deletions by maintenance (daemon events), respond` and every other operation changes the map by deletions only or not at all (Sync_step_refines_R); every single-thread history of Sync.lean is an execution R accepts, with the same responses (Sync_history_refines_R, Sync_history_WF), so the C02 theorems apply to it. The same for the many-thread model ConcS.lean (any number of threads, calls split into map step / maintenance run / enqueue, freely interleaved): every execution projects to an execution R accepts with the same responses (ConcS_refines_R), hence in every such interleaving a get that returns v read an insert(k, v) with no write of k between the two map steps, is never superseded by an operation that completed before it began, and the final map holds the last write (C02_for_ConcS_read_from / _not_superseded / _final); likewise for the finest model ConcF.lean, in which every map access of a maintenance run is its own step (ConcF_refines_R, C02_for_ConcF_*). Racing invalidate_all calls (two steps each: clock reading, store) are modelled in ConcV.lean: ConcV_invalidation_permanent for the repaired store, ConcV_counterexample_D12 for the old one (defect D12, found in this work and repaired). That a lookup (fetch the entry, test its timestamps, clone the value) is atomic with respect to updates of the same key — the shard guard is held across all three — is the granularity assumption of the detailed models; ConcG.lean states it as a model: with the lookup atomic, or split but with updates excluded in between (the guard), no value discarded by an invalidate_all that completed before the get began, and none past its time-to-live, is ever returned, for all interleavings (ConcG_get_fresh, ConcG_get_fresh_guarded); with the guard released between fetch and test — the seeded changes C02e/C05f — a racing update that refreshes the shared timestamps revives it (ConcG_counterexample_split).",
         "level_note": "Theorems about ConcR.lean. Tie: map-site audit (every DashMap call site), recorded real-thread histories accepted by the verified acceptor, quiescent counters.",
     },
     "C07": {
@@ -421,10 +423,18 @@ PROPS["C07"]["components"] = list(PROPS["C07"]["components"]) + [("hammer", ["wa
 # (the same lookup path decides all three kinds of staleness: time-to-live, time-to-idle, watermark)
 PROPS["C05"]["components"] = list(PROPS["C05"]["components"]) + [("hammer", ["watermark"], 6, 0)]
 PROPS["C06"]["components"] = list(PROPS["C06"]["components"]) + [("hammer", ["watermark"], 6, 0)]
-PROPS["C01"]["components"] = list(PROPS["C01"]["components"]) + [("hammer", ["watermark+mono"], 6, 0)]
-PROPS["C08"]["components"] = list(PROPS["C08"]["components"]) + [("hammer", ["syncs"], 8, 0)]
-PROPS["C10"]["components"] = list(PROPS["C10"]["components"]) + [("hammer", ["syncs+racing"], 10, 0)]
+PROPS["C01"]["components"] = list(PROPS["C01"]["components"]) + [("hammer", ["watermark+mono+revive"], 8, 0)]
+PROPS["C08"]["components"] = list(PROPS["C08"]["components"]) + [("hammer", ["syncs+racing"], 10, 0)]
+PROPS["C04"]["components"] = list(PROPS["C04"]["components"]) + [("hammer", ["syncs+racing"], 10, 0)]
+# (syncs also ends with every thread having returned: an explicit sync() beside the writers' housekeeping must
+# not leave the maintenance flag or a lock behind)
+PROPS["C09"]["components"] = list(PROPS["C09"]["components"]) + [("hammer", ["syncs"], 10, 0)]
+PROPS["C10"]["components"] = list(PROPS["C10"]["components"]) + [("hammer", ["syncs+racing"], 12, 0)]
 PROPS["C11"]["components"] = list(PROPS["C11"]["components"]) + [("hammer", ["drops"], 8, 0)]
+# revive = one thread invalidates everything and re-inserts a few keys, the others only sync(): every key is
+# there again, in lookups and in an iteration, with the value just written
+PROPS["C03"]["components"] = list(PROPS["C03"]["components"]) + [("hammer", ["revive"], 10, 0)]
+PROPS["C16"]["components"] = list(PROPS["C16"]["components"]) + [("hammer", ["revive"], 10, 0)]
 # a hit recorded just before the idle deadline and applied only after the original deadline has passed
 for _k in ("C01", "C03", "C06", "C07"):
     PROPS[_k]["components"] = list(PROPS[_k]["components"]) + [("sync", ["lateread"], 20, 30), ("unsync", ["lateread"], 8, 30)]
